@@ -23,12 +23,31 @@ from ..specdesc import spec_rules_desc, terms_list
 from . import c02
 
 PACKS = {"plain": dict(), "sym": dict(sym=True), "inf": dict(inf=True), "syminf": dict(sym=True, inf=True),
-         "symcycle": dict(sym=True, cycle=True)}
+         "symcycle": dict(sym=True, cycle=True),
+         # two competing expansion strategies: the finder's second phase has alternatives to backtrack over
+         "two": dict(expand2=True), "twosym": dict(expand2=True, sym=True)}
 ABC3 = [(("ab", "cc"), "abc"), (("bc", "aa"), "abc"), (("ca", "bb"), "abc"), (("ba", "cc"), "abc"), (("ac", "bb"), "abc"),
         (("cc",), "abc"), (("aa",), "abc"), (("bb",), "abc"), (("b",), "abc"), (("a",), "abc")]
 STARTS = [(("aa",), "ab"), (("bb",), "ab"), (("ab",), "ab"), (("ba",), "ab"), (("aba",), "ab"), (("bab",), "ab"), (("aa", "bb"), "ab"),
           (("aab",), "ab"), (("abb",), "ab"), (("a", "bb"), "ab"), (("aba", "bb"), "ab"), (("bab", "aa"), "ab"), (("aaa",), "ab"), (("bbb",), "ab"),
           (("aa", "b"), "abc"), (("cc", "a"), "abc"), (("ab", "ba"), "ab"), (("aab", "bba"), "ab"), (("abab",), "ab"), (("baba",), "ab")]
+
+
+# pattern sets over three letters, each paired with its image under the a<->b swap, searched with two competing
+# expansion strategies (with / without the swap symmetry): the finder's second search meets labels that were already
+# given a rule while paired with another label (defect D12 was found here)
+TWO3 = [("aca", "bca"), ("aab", "bab"), ("aba", "cbc"), ("aca", "cac"), ("bcb", "ccb"), ("abc", "bba"), ("ab",), ("aca",), ("ac", "bb"), ("cab", "cc")]
+
+
+def two3_pairs():
+    from ..universes.words import swap_word
+
+    out = []
+    for P in TWO3:
+        Q = tuple(sorted(swap_word(p) for p in P))
+        for pk1, pk2 in (("twosym", "two"), ("two", "twosym"), ("two", "two"), ("twosym", "twosym")):
+            out.append((((P, "abc"), pk1), ((Q, "abc"), pk2)))
+    return out
 
 
 def mk_searcher(start_cfg, pk, flavour="default"):
@@ -175,7 +194,7 @@ def run(tier: str, seed: int, pid="C12") -> int:
     run_ = Run(pid, tier, seed)
     rnd = random.Random(seed + 12)
     if pid == "C12":
-        pool = [(s, pk, fl) for s in STARTS[: (14 if tier == "quick" else 20)] for pk in PACKS if pk != "symcycle" for fl in ("default", "forget", "forest")]
+        pool = [(s, pk, fl) for s in STARTS[: (14 if tier == "quick" else 20)] for pk in PACKS if pk != "symcycle" and not pk.startswith("two") for fl in ("default", "forget", "forest")]
         pairs = [(a, b) for a in pool for b in pool if a[0][1] == b[0][1] or True]
         rnd.shuffle(pairs)
         pairs = pairs[: (260 if tier == "quick" else 6000)]
@@ -184,7 +203,8 @@ def run(tier: str, seed: int, pid="C12") -> int:
                    for pk1 in ("plain", "syminf") for pk2 in ("plain", "inf") for fl1 in ("default", "forest") for fl2 in ("default", "forget")]
         # three-letter classes related by letter renamings: children of the root rule match by 3-cycles
         abc = [((a, pk1, "default"), (b, pk2, "default")) for a in ABC3 for b in ABC3 for pk1 in ("plain", "symcycle") for pk2 in ("plain",)]
-        res = [r for r in pmap(pair_job, mirrors + abc + pairs, procs=16, chunk=2) if r]
+        two3 = [((a[0], a[1], "default"), (b[0], b[1], "default")) for a, b in two3_pairs()[: (12 if tier == "quick" else 1000)]]
+        res = [r for r in pmap(pair_job, mirrors + abc + two3 + pairs, procs=16, chunk=2) if r]
         seen, traces = set(), []
         for r in res:
             if r["tid"] in seen:
@@ -202,14 +222,28 @@ def run(tier: str, seed: int, pid="C12") -> int:
         run_.rule = ("ordered pairs of specifications from a pool (start classes x {plain,sym,inf,syminf} x three rule databases), mirror "
                      "pairs forced in; non-trivial = a bijection was constructed (its tables for n <= 6 are judged)")
     else:
-        items = [(s, pk) for s in STARTS[: (12 if tier == "quick" else 20)] for pk in PACKS if pk != "symcycle"]
+        items = [(s, pk) for s in STARTS[: (12 if tier == "quick" else 20)] for pk in PACKS if pk != "symcycle" and not pk.startswith("two")]
         pairs = [(a, b, v) for a in items for b in items for v in ("plain", "eqpath")]
         rnd.shuffle(pairs)
         pairs = pairs[: (420 if tier == "quick" else 6000)]
         forced = [((STARTS[i], pk1), (STARTS[j], pk2), v) for i, j in ((0, 1), (2, 3), (4, 5), (0, 0), (6, 6), (7, 8))
-                  for pk1 in PACKS for pk2 in PACKS for v in ("plain", "eqpath")]
+                  for pk1 in PACKS if not pk1.startswith("two") for pk2 in PACKS if not pk2.startswith("two") for v in ("plain", "eqpath")]
         abc = [((a, pk1), (b, pk2), v) for a in ABC3 for b in ABC3 for pk1 in ("plain", "symcycle") for pk2 in ("plain", "symcycle") for v in ("plain", "eqpath")]
-        res = pmap(finder_job, forced + abc + pairs, procs=16, chunk=2)
+        two3 = [(a, b, v) for a, b in two3_pairs() for v in ("plain", "eqpath")]
+        if tier == "thorough":
+            import itertools as it
+            from ..universes.words import swap_word, cycle_word
+            words = ["".join(w) for n in (1, 2, 3) for w in it.product("abc", repeat=n)]
+            r3 = random.Random(seed + 13)
+            for _ in range(1500):
+                P = tuple(sorted(r3.sample(words, r3.choice((1, 2, 2, 3)))))
+                f = r3.choice((swap_word, cycle_word, lambda w: w))
+                Q = tuple(sorted(f(p) for p in P))
+                if any(p in "" for p in P):
+                    continue
+                pk1, pk2 = r3.choice(("two", "twosym", "sym", "plain")), r3.choice(("two", "twosym", "sym", "plain"))
+                two3 += [(((P, "abc"), pk1), ((Q, "abc"), pk2), v) for v in ("plain", "eqpath")]
+        res = pmap(finder_job, forced + abc + two3 + pairs, procs=16, chunk=2)
         seen, traces, specs = set(), [], []
         kinds = {}
         for r in res:
